@@ -54,3 +54,29 @@ Theorem C11_container : forall Sc cfg t file plan ma m sy s' n ds k,
     cr_run Sc cfg sy t n (mkCR (RNotInBlock r') false) = map IValue ds' ++ repeat IEof k /\
     map erase_borrow ds' = map erase_borrow ds.
 Proof. exact container_chunk_independent. Qed.
+
+(** ** Compressed container files: same result from a slice and from ANY chunking of the source
+    (model/ContainerCodec.v, proofs/ContainerCodecProofs.v; decoders abstract under stream_decoder_contract) *)
+Require Import Sval Ser AvroValue Encoding VectoredWrite Container CodecLoop DecodeLoop ContainerCodec ContainerReadProofs DecodeLoopProofs ContainerCodecProofs.
+Theorem C11_compressed_file_chunk_independent :
+  forall (enc : bytes -> bytes) (D : Type) (dread : D -> bytes -> option chunkst -> nat -> dres * D) (d0 : D)
+    (policy : nat -> nat -> option nat) (raw_dec : bytes -> option bytes) (crc32 : bytes -> N) (lfuel : nat) (Sc : fschema)
+    (cfg : dcfg) (root : fnode) (approx : N) (sync : bytes) (vectored : bool),
+  schema_wf Sc = true -> fnode_at Sc 0 = Some root -> length sync = 16%nat ->
+  forall (cap : nat) (json cname : bytes) (user : list (bytes * bytes)) (sched : list wans) (st0 : wstate) (hs : list hop)
+    (close : wop) (outs : list (wout * N)) (st' : wstate),
+  (1 <= cap)%nat -> ContainerHeaderProofs.keys_utf8 user -> (length user <= 998)%nat ->
+  wbuild sync json cname user sched = (WROk, st0) ->
+  Forall (value_ok Sc cfg root) (vals_of hs) -> fits (length (vals_of hs)) ->
+  (length (encs Sc root (vals_of hs)) < lfuel)%nat ->
+  stream_codec_ok enc D dread d0 Sc root (vals_of hs) ->
+  close = WFinish \/ close = WIntoInner \/ close = WDrop ->
+  wrun enc Sc approx sync vectored st0 (map (op_of Sc root) hs ++ [close]) = (outs, st') ->
+  Forall (fun r : wout * N => fst r = WROk) outs ->
+  ccr_file D dread d0 policy raw_dec crc32 dval (cc_vdec Sc cfg root) (BStream cap) lfuel (slice_reader (w_sink st')) =
+    Ok (ContainerHeaderProofs.header_entries json cname user, sync, map (dval_any Sc root) (vals_of hs), CEof) /\
+  (forall (plan : list N) (ma : N), N.of_nat (length (w_sink st')) <= ma ->
+   ccr_file D dread d0 policy raw_dec crc32 dval (cc_vdec Sc cfg root) (BStream cap) lfuel (chunked_reader (w_sink st') plan ma) =
+     Ok (ContainerHeaderProofs.header_entries json cname user, sync, map (dval_any Sc root) (vals_of hs), CEof)).
+Proof. exact ccr_file_read_back. Qed.
+
